@@ -266,7 +266,14 @@ def handle(run, results, build, what='entries differ from the oracle', signature
             key = '%s/%s/%s' % (res['group'], cfg.get('variant', cfg.get('rel', '-')), fam)
             if (fam + '~known') in fams:
                 key += '/differs-from-recorded-finding'
+            witness = getattr(importlib.import_module(build.__module__), 'real_witness', None)
+            wit = None
+            if witness is not None:
+                try:
+                    wit = witness(cfg, fam)       # the same failure shown on the compiled (float) build, where the module can
+                except Exception as e:
+                    wit = {'error': '%s: %s' % (type(e).__name__, e)}
             run.violation(key, ('%s m=%d n=%d: %d ' + what + ', e.g. %s impl=%.6g oracle=%.6g') % (
                 res['group'], cfg['m'], cfg['n'], len(fbad), fbad[0][0], fbad[0][1], fbad[0][2]),
-                {'cfg': cfg, 'inputs': info['values'], 'differing_entries': fbad[:10], 'n_sat': len(names)},
+                dict({'cfg': cfg, 'inputs': info['values'], 'differing_entries': fbad[:10], 'n_sat': len(names)}, **({'compiled_build': wit} if wit else {})),
                 **({'signature': signature(cfg, fam, sorted(names))} if signature else {}))
